@@ -19,7 +19,9 @@ LEVEL = "exploration"
 RULE = ("seeded call forests per dialect class; 3-8 live objects of different kinds are duplicated with copy / deepcopy / "
         "pickle, the duplicates join the pools, and 6-14 further builder actions are applied to originals and duplicates; "
         "plus fixed graphs (schema chains, NOT wrappers, CTEs, nested subqueries, set operations, joins) x 3 mechanisms x 6 "
-        "dialects. non-trivial = at least one duplicate of a builder/term was later used as receiver or argument; "
+        "dialects, plus 'used' graphs in which the original was rendered, hashed, asked for dynamic attributes and called "
+        "through the delegating NOT wrapper before it is duplicated and the duplicate is continued (replace_table, as_, "
+        "delegated calls, for_update(of=), groupby by alias ...). non-trivial = at least one duplicate of a builder/term was later used as receiver or argument; "
         "distinct = program hash")
 ASSUMPTIONS = ["same observation function as C01 (six contexts x inline/parameterised, str, alias, is_aggregate, tables, fields)"]
 ANCHORS = ["QueryBuilder.__copy__", "PostgreSQLQueryBuilder.__copy__", "ignore_copy.<locals>._getattr", "builder.<locals>._copy"]
@@ -44,7 +46,7 @@ def fixed_graphs(d):
     t = p.new("Table", "t1")
     n1 = p.un("not", p.bin("==", p.call(t, "field", "a"), 1))
     n2 = p.new("Not", p.call(p.call(t, "field", "b"), "isin", [1, 2]), alias="nn")
-    n3 = p.call(n1, "isin", [3])  # delegated through Not.__getattr__
+    n3 = p.call(n1, "isin", [3])
     out.append((p, [n1.i, n2.i, n3.i]))
     p = P()
     t = p.new("Table", "t1")
@@ -64,8 +66,93 @@ def fixed_graphs(d):
     return out
 
 
+def used_graphs(d, how):
+    """Objects that were *used* (rendered, hashed, asked for dynamic attributes, called through a delegating wrapper) before they
+    are duplicated, then continued on the duplicate.  The warm-up steps are no part of the duplicate's own sub-program, so the
+    history monitor compares it with an object that was never warmed up."""
+    p = P()
+    t1, t9 = p.new("Table", "t1"), p.new("Table", "t9")
+    dups = []
+
+    def dup(x):
+        y = p.dup(how, x)
+        dups.append([x.i, y.i, how])
+        return y
+    # NOT wrapper around a field: JSON operators are delegated through Not.__getattr__
+    n = p.new("Not", p.call(t1, "field", "data"))
+    p.call(n, "has_key", "k")
+    p.call(n, "get_text_value", "k")
+    p.call(n, "__hash__")
+    p.call(n, "__str__")
+    n_d = dup(n)
+    p.call(n_d, "has_key", "k")
+    rt = p.call(n_d, "replace_table", t1, t9)
+    p.call(rt, "has_key", "k")
+    p.call(rt, "get_text_value", "z")
+    p.call(p.call(n, "replace_table", t1, t9), "has_key", "k2")
+    # NOT wrapper around a CASE: when/else_ are delegated
+    c = p.new("Not", p.call(p.new("Case"), "when", p.bin(">", p.call(t1, "field", "a"), 1), 1))
+    p.call(c, "else_", 0)
+    c_d = dup(c)
+    p.call(p.call(c_d, "replace_table", t1, t9), "else_", 5)
+    p.call(c_d, "when", p.bin("<", p.call(t1, "field", "b"), 0), 2)
+    # table: dynamic attributes, star, hash, str before duplication; alias / temporal continuation on the duplicate
+    t = p.new("Table", "abc", schema="s")
+    p.attr(t, "star")
+    p.attr(t, "some_col")
+    p.call(t, "__hash__")
+    p.call(t, "__str__")
+    p.call(p.call(Cls(d), "from_", t), "select", p.attr(t, "star"), p.attr(t, "foo"))
+    t_d = dup(t)
+    ta = p.call(t_d, "as_", "a")
+    p.call(ta, "__hash__")
+    p.call(p.call(Cls(d), "from_", ta), "select", p.attr(ta, "star"), p.attr(ta, "foo"))
+    p.call(p.call(Cls(d), "from_", t_d), "select", p.attr(t_d, "x"))
+    # query: rendered, hashed and asked for attributes before duplication
+    q = p.call(p.call(p.call(Cls(d), "from_", t1), "select", p.call(t1, "field", "a"), p.call(p.new("fn.Sum", p.call(t1, "field", "b")), "as_", "x")),
+               "where", p.bin("==", p.call(t1, "field", "c"), "v"))
+    p.call(q, "__str__")
+    p.call(q, "get_sql")
+    p.call(q, "__hash__")
+    p.attr(q, "a")
+    p.attr(q, "star")
+    q_d = dup(q)
+    p.call(q_d, "groupby", p.call(p.call(t1, "field", "c"), "as_", "x"))
+    p.call(q_d, "orderby", "x")
+    p.call(p.call(q_d, "for_update", of=("t1",)), "__str__")
+    p.call(q, "for_update", of=("t9",))
+    p.call(q_d, "replace_table", t1, t9)
+    p.call(p.call(q_d, "join", t9), "on", p.bin("==", p.call(t9, "field", "id"), p.call(t1, "field", "id")))
+    # terms: collected fields/tables, hash and rendering before duplication
+    e = p.bin("+", p.call(t1, "field", "a"), p.bin("*", p.call(t1, "field", "b"), 2))
+    p.call(e, "fields_")
+    p.attr(e, "tables_")
+    p.call(e, "__hash__")
+    e_d = dup(e)
+    p.call(e_d, "replace_table", t1, t9)
+    p.call(e_d, "as_", "al")
+    iv = p.new("Interval", days=-3, hours=20)
+    p.call(iv, "__str__")
+    iv_d = dup(iv)
+    p.call(iv_d, "__str__")
+    p.call(p.new("Interval", days=3, hours=20), "__str__")
+    cr = p.call(p.call(Cls(d), "create_table", t1), "columns", p.new("Column", "a", "INT"), p.new("Column", "b", "INT"))
+    p.call(cr, "__str__")
+    cr_d = dup(cr)
+    p.call(cr_d, "unique", "a")
+    p.call(cr_d, "columns", p.new("Column", "c", "INT"))
+    p.call(cr, "unique", "b")
+    return p, dups
+
+
 def cases(tier, seed, shard, nshards):
     k = 0
+    for d in DIALECT_CLASSES:
+        for how in HOWS:
+            k += 1
+            if k % nshards == shard:
+                pb, dups = used_graphs(d, how)
+                yield {"k": "used", "prog": pb.prog(dialect=d), "dups": dups}
     for d in DIALECT_CLASSES:
         for pb, targets in fixed_graphs(d):
             for how in HOWS:
